@@ -1,10 +1,10 @@
 ID = 'C19'
 TITLE = 'Called seqlets are well-formed spans whose reported statistics match the input'
 CONTRACT_MODULES = ['contracts.seqlet_c']
-FUNCTIONS = ['tangermeme.seqlet._recursive_seqlets#emit']
+FUNCTIONS = ['tangermeme.seqlet._recursive_seqlets#emit', 'tangermeme.seqlet._iterative_extract_seqlets#step', 'tangermeme.seqlet.tfmodisco_seqlets#row']
 BOUNDED = 'bounded.C19'
 BOUNDED_BUDGET = {'quick': 60, 'thorough': 600}
 LEVEL = 'other'
-EXPLANATION = ('deductive (emission block of _recursive_seqlets as a fragment contract): appended seqlet fields, 0 <= start < end <= l, attribution = prefix-sum difference with csum[-1] = 0 (no wrapped index). bounded: planted bumps; span / attribution / p-value / sortedness / suppression / frame clauses on the real callers')
-ASSUMPTIONS = ['context of the emission block (start from argmin of a length-l row, core extended at least once) is assumed', 'prefix_sum_diff (Lean): csum[b-1]-csum[a-1] = sum over [a,b)']
+EXPLANATION = ('deductive (emission block of _recursive_seqlets as a fragment contract): appended seqlet fields, 0 <= start < end <= l, attribution = prefix-sum difference with csum[-1] = 0 (no wrapped index); one step of _iterative_extract_seqlets as a fragment contract (stops exactly when the maximum of the row is -inf, otherwise appends (i, a - flank, a + window + flank) for the first maximum a and clears exactly the cells within suppress of a, clipped to the row); row construction of tfmodisco_seqlets as a fragment contract (attribution = sum of the input over the central window, input unwritten). bounded: planted bumps; span / attribution / p-value / sortedness / suppression / frame clauses on the real callers')
+ASSUMPTIONS = ['the step contract implies that two seqlets of one example have starts more than suppress apart (a later maximum is finite, hence outside every cleared range): argued in the contract docstring, not machine-checked', '-inf modelled as one unspecified huge negative real; numpy.floor / ceil = to_int; argmax = first index of a maximal element (axiom)', 'the seqlets handed to the row construction span window_size + 2*flank positions inside the example (established by the extraction step and the flank masking: bounded)', 'context of the emission block (start from argmin of a length-l row, core extended at least once) is assumed', 'prefix_sum_diff (Lean): csum[b-1]-csum[a-1] = sum over [a,b)']
 TRUSTED = []
